@@ -1002,6 +1002,11 @@ fn rt() -> tokio::runtime::Runtime {
 }
 
 fn configs(tier: Tier) -> Vec<(Backend, bool)> {
+    match std::env::var("SYNCX_CONFIG").ok().as_deref() {
+        Some("db") => return vec![(Backend::Db, true)],
+        Some("fs") => return vec![(Backend::Fs, false)],
+        _ => {}
+    }
     match tier {
         Tier::Quick => vec![(Backend::Fs, false)],
         Tier::Thorough => vec![(Backend::Fs, false), (Backend::Db, true)],
@@ -1012,7 +1017,8 @@ fn all_scenarios(tier: Tier) -> Vec<Scenario> {
     let mut v = vec![];
     if std::env::var("SYNCX_BYPRODUCT").is_ok() && tier == Tier::Quick {
         // reduced set for the C02 / C20 by-product runs: conflicts only
-        for sc in scenarios(tier, Backend::Fs, false) {
+        let (b0, s0) = configs(tier)[0];
+        for sc in scenarios(tier, b0, s0) {
             let both = sc.edits.iter().all(|e| !e.is_empty());
             let l1 = sc.edits.iter().all(|e| e.len() == 1);
             // the device with the longer suffix syncs last (it is the
